@@ -124,3 +124,15 @@ Theorem C14_example_run :
             map g_pc (gs s) = [Dropped; Stopped; Fired].
 Proof. exact example_runs. Qed.
 Print Assumptions C14_example_run.
+
+(* The property's last sentence, on the connection model (ConnMon: at rest a handshake timer
+   is only armed in a state that waits with a timer of its own phase - init wait, hello
+   listen, protocol handshake, access methods - so a phase that was left in time leaves no
+   timer behind that could tear the connection down later), for every event list.  The
+   connection model uses ideal timers, which C14_refines_ideal_timer justifies. *)
+From Ship Require Import Conn ConnEvents ConnData ConnMon ConnClosure ConnLift ConnCor.
+Theorem C14_no_timer_left_behind_by_a_finished_phase :
+  forall (r : role) (stored local : bytes) (es : list eventx),
+    viol_in 80 89 (model_mon r stored local es) = [].
+Proof. exact (fun r s l es => no_violation r s l es 80 89). Qed.
+Print Assumptions C14_no_timer_left_behind_by_a_finished_phase.
